@@ -9,6 +9,13 @@ def showT (t : T Int) : String := s!"{showNats t.dims} {showInts t.data}"
 /-- iota-filled tensor of the given shape (values `offset % 100`, as the harness fills them) -/
 def iota (dims : List Nat) : T Int := ⟨dims, (List.range (size dims)).map (fun k => Int.ofNat (k % 100))⟩
 
+/-- `br bc n v1 … vn`: one rank-2 block of `stackmat` -/
+def pBlock : P (Block Int) := fun ts => do
+  let (r, ts) ← pNat ts
+  let (c, ts) ← pNat ts
+  let (d, ts) ← pList pInt ts
+  pure (⟨r, c, d⟩, ts)
+
 def handle : Toks → Option String
   | "offset" :: ts => do
     let (dims, ts) ← pList pNat ts
@@ -24,19 +31,27 @@ def handle : Toks → Option String
     let (dims, ts) ← pList pNat ts
     let (b, ts) ← pNat ts
     let (e, ts) ← pNat ts
-    guard ts.isEmpty
+    guard (ts.length ≤ 1)  -- optional storage / overload selector (mem, cmem, map, cmap, range): same model
     let s ← (iota dims).slice b e
+    pure s!"ok {index dims [b]} {showT s}"
+  | "segment" :: ts => do
+    -- rank-1 `segment(begin, length)` = the first-axis slice `[begin, begin + length)`
+    let (dims, ts) ← pList pNat ts
+    let (b, ts) ← pNat ts
+    let (len, ts) ← pNat ts
+    guard (ts.length ≤ 1 ∧ dims.length = 1)
+    let s ← (iota dims).slice b (b + len)
     pure s!"ok {index dims [b]} {showT s}"
   | "reshape" :: ts => do
     let (dims, ts) ← pList pNat ts
     let (sizes, ts) ← pList pInt ts
-    guard ts.isEmpty
+    guard (ts.length ≤ 1)  -- optional storage selector
     let s ← (iota dims).reshape sizes
     pure s!"ok 0 {showT s}"
   | "gather" :: ts => do
     let (dims, ts) ← pList pNat ts
     let (idx, ts) ← pList pNat ts
-    guard ts.isEmpty
+    guard (ts.length ≤ 1)  -- optional return scalar type: the values 0..99 are exact in all of them
     let s ← (iota dims).gather idx
     pure s!"ok {showT s}"
   | "integral" :: ts => do
@@ -63,6 +78,13 @@ def handle : Toks → Option String
     guard ts.isEmpty
     let v ← stackVec n blocks
     pure s!"ok {showInts v}"
+  | "stackmat" :: ts => do
+    let (rows, ts) ← pNat ts
+    let (cols, ts) ← pNat ts
+    let (blocks, ts) ← pList pBlock ts
+    guard ts.isEmpty
+    let m ← stackMat (0 : Int) rows cols blocks
+    pure s!"ok {rows} {cols} {showInts m}"
   | _ => none
 where
   sub (flat : Bool) (ts : Toks) : Option String := do
